@@ -650,7 +650,7 @@ def run(ctx):
     m = ctx.build_model("c15")
     dist = {}
     import time
-    tm = {"t": time.time()}
+    tm = {"t": ctx.t0}
 
     def lap(name):
         now = time.time()
